@@ -37,6 +37,11 @@ def run(F, X, rep):
     S.s7_generation_guard(C, rep, "C02-S7")
     # "from a stored Pending state wait first" presupposes that a stored Pending record is reported as Pending
     S.w4_fetch_mapping(C, rep, "C02-S11")
+    S.rt_records_roundtrip(C, rep, "C02-S11")
+    # a held HTLC is answered only by its lifecycle's final answer (which removes the entry): nothing else drains or removes it
+    import rules_hh as H2
+    if H2.need_hh(C, rep, "C02-S12"):
+        H2.p3_answer_reaches_everyone(C, rep, "C02-S12")
     import rules_provider as P
     P.v_wait_payment(C, rep, "C02-S9")
     P.d_dispatch(C, rep, "C02-S9")
